@@ -75,7 +75,7 @@ func driveC17(t *testing.T, out *vEmitter) {
 		{{id: "apiv2", path: "/api/v2/"}, {id: "static-root", path: "/", static: true}, {id: "api", path: "/api/"}, {id: "rw", path: "^/api/v2/special", rewrite: "/s"}},
 	}
 	paths := []string{"/", "/x", "/api", "/api/", "/api/users", "/api/v2", "/api/v2/", "/api/v2/items?q=1", "/api/v2/special/1", "/apix", "/exact", "/exact/", "/exact/x",
-		"/api/x%2Fy", "/api/v2/a%20b", "/api/%2e%2e/x", "/api/a+b", "/api/c;d=1", "/api/%C3%A9", "/api/é", "/legacy/one/two", "/legacy/", "/l", "/lx/y", "/q/z?orig=1&x=0",
+		"/api/x%2Fy", "/api/v2/a%20b", "/api/%2e%2e/x", "/api/a+b", "/api/c;d=1", "/api/%C3%A9", "/api/é", "/legacy/one/two", "/legacy/", "/legacy/my%20file.txt", "/legacy/caf%C3%A9/x", "/legacy/a%2Fb", "/q/a%20b?orig=1", "/lx%20y", "/l", "/lx/y", "/q/z?orig=1&x=0",
 		"/static-resp/x", "/a/", "/a/x", "/ab/x", "/a/b/x", "/a/b/c", "/a/b/c/", "/a/b/cd", "/nohost/x", "/a", "/ab", "/new/direct"}
 	queries := []string{"", "?q=1&r=a+b%20c", "?", "?x=%2F&y=%3D;z"}
 	for si, set := range sets {
